@@ -95,6 +95,18 @@ pub fn programs(tier: Tier) -> ProgramSet {
             }
         }
     }
+    // SCALE: wide tables (more slots than any hand-written test; reduced write alphabet, see explore)
+    for n in (if tier == Tier::Quick { vec![9usize] } else { vec![9usize, 12] }) {
+        let mut s = EnumSpec::base(0);
+        s.name = "En".into();
+        for i in 0..n {
+            s.variants.push(VariantSpec::unit(&format!("W{}x", (n * 7 - i * 5) % 97)));
+        }
+        let mut d = VariantSpec::unit("Zm");
+        d.disabled = true;
+        s.variants.insert(n / 2, d);
+        add(format!("SCALE: wide table n={} + disabled variant middle", n), s, &mut out);
+    }
     // name hygiene probes: the template's own generic parameters are called T, U, F, E
     for name in ["E", "F", "T", "U"] {
         let mut s = EnumSpec::base(2);
@@ -217,6 +229,9 @@ pub struct TableModel {
     mk: Mk,
     /// declared variants: enabled flags
     enabled: Vec<bool>,
+    /// value alphabet of the writes and constructors explored (wide tables use a reduced one)
+    values: Vec<u8>,
+    ctors: Vec<usize>,
     col: Arc<Mutex<Collector>>,
 }
 
@@ -310,7 +325,7 @@ impl Model for TableModel {
 
     fn init_states(&self) -> Vec<St> {
         let mut out = Vec::new();
-        for ctor in 0..4 {
+        for &ctor in &self.ctors {
             let refv = self.init_ref(ctor);
             let mut calls = 1;
             let mut outs = Vec::new();
@@ -351,7 +366,7 @@ impl Model for TableModel {
             return;
         }
         for k in 0..self.enabled.len() {
-            for v in 0..3u8 {
+            for &v in &self.values {
                 out.push((k, v));
             }
         }
@@ -414,7 +429,11 @@ pub fn explore(ctx: &mut Ctx, mk: Mk, n_declared: usize) {
     let idents: Vec<String> = spec.variants.iter().map(|v| v.ident.clone()).collect();
     let n_en = enabled.iter().filter(|e| **e).count();
     let col = Arc::new(Mutex::new(Collector::default()));
-    let model = TableModel { mk, enabled, col: col.clone() };
+    // wide tables: writes of 0 only, from new(1,2,..) and filled(7) — still reaches every pattern of zero / non-zero slots,
+    // i.e. every pattern of Some/None and Ok/Err positions for all() / all_ok()
+    let wide = n_en > 6;
+    let (values, ctors): (Vec<u8>, Vec<usize>) = if wide { (vec![0], vec![0, 1]) } else { (vec![0, 1, 2], vec![0, 1, 2, 3]) };
+    let model = TableModel { mk, enabled, values: values.clone(), ctors: ctors.clone(), col: col.clone() };
     let checker = model.checker().threads(1).spawn_bfs().join();
     let states = checker.unique_state_count() as u64;
     let depth = checker.max_depth();
@@ -448,19 +467,30 @@ pub fn explore(ctx: &mut Ctx, mk: Mk, n_declared: usize) {
         };
         ctx.violation(k, &input, e, o);
     }
-    for i in 0..states.saturating_sub(4) {
+    for i in 0..states.saturating_sub(ctors.len() as u64) {
         ctx.nontrivial(&i);
     }
     // vacuity: from every constructor all 3^n assignments over {0,1,2} were reached
     if c.violations.is_empty() {
-        let want = 3u64.pow(n_en as u32);
-        for ctor in 0..4usize {
-            let got = c.ref_states.iter().filter(|(ct, r)| *ct == ctor && r.iter().all(|v| *v <= 2)).count() as u64;
-            if got < want {
-                ctx.machinery(format!("vacuity guard: constructor #{} reached {} of {} assignments over {{0,1,2}}", ctor, got, want));
+        if wide {
+            let want = 2u64.pow(n_en as u32);
+            for &ctor in &ctors {
+                let got = c.ref_states.iter().filter(|(ct, _)| *ct == ctor).count() as u64;
+                if got < want {
+                    ctx.machinery(format!("vacuity guard: constructor #{} reached {} of {} zero/non-zero patterns", ctor, got, want));
+                }
+            }
+        } else {
+            let want = 3u64.pow(n_en as u32);
+            for ctor in 0..4usize {
+                let got = c.ref_states.iter().filter(|(ct, r)| *ct == ctor && r.iter().all(|v| *v <= 2)).count() as u64;
+                if got < want {
+                    ctx.machinery(format!("vacuity guard: constructor #{} reached {} of {} assignments over {{0,1,2}}", ctor, got, want));
+                }
             }
         }
     }
+    let _ = &values;
     if ctx.want_sample() && n_en >= 2 && spec.variants.iter().any(|v| v.disabled) {
         ctx.sample(json!({"program": ctx.program.label, "enum": render_enum(&spec, &["strum::EnumTable"]), "bfs_unique_states": states, "transitions": c.transitions, "max_depth": depth,
             "example_history": show(0, &[(0, 2), (n_declared - 1, 0)], &idents)}));
